@@ -2,10 +2,12 @@
 (***************************************************************************)
 (* L2: what an openapi3.Loader keeps BETWEEN uses (loader.go), as a state  *)
 (* machine over histories of uses of one Loader on one universe: the root  *)
-(* document holds one reference into one external document.                *)
+(* document holds one reference into one external document; with BackRef   *)
+(* the external document also refers back into the root (root.A -> ext.V   *)
+(* -> root.B).                                                             *)
 (*   cache   visitedDocuments: a document is entered BEFORE it is resolved *)
 (*           (loadFromDataWithPathInternal) and served from there when its *)
-(*           location is loaded again; it is never reset;                  *)
+(*           location is loaded again; it is never reset between loads;    *)
 (*   inprog  visitedRefs: pushed by visitRef, popped by a deferred         *)
 (*           unvisitRef that is registered only after the reference        *)
 (*           resolved -- an error return leaves the reference pushed;      *)
@@ -14,33 +16,48 @@
 (*           points always reset it first;                                 *)
 (*   allow   the public switch IsExternalRefsAllowed, which the caller may *)
 (*           flip between two uses (Toggle).                               *)
-(* Design = "pinned": the code as it is.  "repaired": a failed load drops  *)
-(* the document from the cache and the outermost ResolveRefsIn resets the  *)
-(* in-progress set when it returns an error (_report/fix-F-C02-6.diff).    *)
+(* Design:                                                                 *)
+(*   "asbuilt"  the code as it is (since fcc1715): a failed load deletes   *)
+(*              the document from the cache and the outermost              *)
+(*              ResolveRefsIn resets the in-progress set when it returns   *)
+(*              an error; the cache itself still lives as long as the      *)
+(*              Loader;                                                    *)
+(*   "pinned"   the design before fcc1715 (refuted: finding F-C02-6): a    *)
+(*              failed load left the half-resolved document in the cache   *)
+(*              and the reference in the in-progress set;                  *)
+(*   "perload"  a variant not built: the visited documents belong to one   *)
+(*              load (reset by every Load* entry point).                   *)
 (* L1 (C02, C11): every use behaves like the use of a fresh Loader with    *)
 (* the switch as it stands at that time: with external references allowed  *)
-(* it succeeds with the reference resolved; with them disallowed nothing   *)
+(* it succeeds with every reference resolved; with them disallowed nothing *)
 (* but the root is read.  (Whether a Loader that resolved the root with    *)
 (* the switch on may hand the same document out again after the switch is  *)
 (* turned off, reading nothing, is left open by the statement of C11:      *)
 (* NeverServedWhenOff is defined, and not required.)                       *)
+(* Checked (lib/verif/p_c02.py): asbuilt without BackRef satisfies L1;     *)
+(* pinned does not (F-C02-6, repaired); asbuilt WITH BackRef does not      *)
+(* either -- a Loader that loaded ext as a root of its own has the root    *)
+(* in its cache as that load left it, root.A unresolved because ext.V was  *)
+(* in progress then (open finding F-C02-7); perload satisfies L1 there.    *)
 (* Bound to the code by the entries file_abs_toggled, resolvein_toggled,   *)
-(* file_abs_retry, resolvein_retry of Gen_C02 (harness/c02.go c02Load):    *)
-(* the two *_retry entries are the shortest counterexamples of the pinned  *)
-(* design (finding F-C02-6).                                               *)
+(* file_abs_retry, resolvein_retry (the shortest counterexamples of        *)
+(* "pinned") and file_abs_prior x crossdoc_local (the counterexample of    *)
+(* asbuilt with BackRef) of Gen_C02 (harness/c02.go c02Load).              *)
 (***************************************************************************)
 EXTENDS Naturals, FiniteSets, TLC
 
-CONSTANTS Design, MaxUses
-ASSUME Design \in {"pinned", "repaired"}
+CONSTANTS Design, MaxUses, BackRef
+ASSUME Design \in {"asbuilt", "pinned", "perload"} /\ BackRef \in BOOLEAN
 
 VARIABLES allow, cache, inprog, used, uses, last
 vars == <<allow, cache, inprog, used, uses, last>>
 
+Docs == {"root", "ext"}
 NoUse == [allow |-> FALSE, ok |-> FALSE, resolved |-> FALSE, reads |-> {}]
+Empty == [d \in Docs |-> "none"]
 
 Init == /\ allow \in BOOLEAN
-        /\ cache = [d \in {"root", "ext"} |-> "none"]
+        /\ cache = Empty
         /\ inprog = {}
         /\ used = FALSE
         /\ uses = 0
@@ -49,26 +66,42 @@ Init == /\ allow \in BOOLEAN
 Toggle == /\ allow' = ~allow
           /\ UNCHANGED <<cache, inprog, used, uses, last>>
 
+(* the cache a Load* entry point starts from *)
+StartCache == IF Design = "perload" THEN Empty ELSE cache
 (* following the root's reference: the external document comes from the cache when it is there *)
-ExtReads == IF cache["ext"] = "none" THEN {"ext"} ELSE {}
+ExtReads(c) == IF c["ext"] = "none" THEN {"ext"} ELSE {}
 
-(* LoadFromFile(root): resets the per-load state, reads the root, serves it from the cache when it is there *)
+(* LoadFromFile(root): resets the per-load state, reads the root, serves it from the cache when it is there.  *)
+(* cache value "partial": entered and completed, but with a reference left nil (it was in progress then).    *)
 LoadFromFile ==
    /\ uses < MaxUses
    /\ uses' = uses + 1
    /\ used' = TRUE
    /\ UNCHANGED allow
-   /\ IF cache["root"] # "none"
-      THEN /\ last' = [allow |-> allow, ok |-> TRUE, resolved |-> (cache["root"] = "resolved"), reads |-> {"root"}]
+   /\ LET c == StartCache IN
+      IF c["root"] # "none"
+      THEN /\ last' = [allow |-> allow, ok |-> TRUE, resolved |-> (c["root"] = "resolved"), reads |-> {"root"}]
            /\ inprog' = {}
-           /\ UNCHANGED cache
+           /\ cache' = c
       ELSE IF allow
-      THEN /\ last' = [allow |-> allow, ok |-> TRUE, resolved |-> TRUE, reads |-> {"root"} \cup ExtReads]
-           /\ cache' = [d \in {"root", "ext"} |-> "resolved"]
+      THEN /\ last' = [allow |-> allow, ok |-> TRUE, resolved |-> TRUE, reads |-> {"root"} \cup ExtReads(c)]
+           /\ cache' = [d \in Docs |-> "resolved"]
            /\ inprog' = {}
       ELSE /\ last' = [allow |-> allow, ok |-> FALSE, resolved |-> FALSE, reads |-> {"root"}]
-           /\ cache' = [cache EXCEPT !["root"] = IF Design = "pinned" THEN "half" ELSE "none"]
+           /\ cache' = [c EXCEPT !["root"] = IF Design = "pinned" THEN "half" ELSE "none"]
            /\ inprog' = IF Design = "pinned" THEN {"ref"} ELSE {}
+
+(* LoadFromFile(ext) -- the external document loaded as a root document of its own (only of interest with BackRef: *)
+(* ext.V -> root.B pulls the root in; the root's walk meets root.A -> ext.V while ext.V is in progress and leaves  *)
+(* it nil; the root enters the cache like that).  Not counted as a use of the universe: it is the earlier history. *)
+LoadExtAsRoot ==
+   /\ BackRef /\ allow /\ uses < MaxUses
+   /\ used' = TRUE
+   /\ inprog' = {}
+   /\ LET c == StartCache IN
+      cache' = [c EXCEPT !["ext"] = IF c["ext"] = "none" THEN "resolved" ELSE c["ext"],
+                         !["root"] = IF c["root"] = "none" /\ c["ext"] = "none" THEN "partial" ELSE c["root"]]
+   /\ UNCHANGED <<allow, uses, last>>
 
 (* ResolveRefsIn(doc parsed by the caller, location of the root): no reset on a used Loader; the root is not read *)
 ResolveRefsIn ==
@@ -83,19 +116,19 @@ ResolveRefsIn ==
            /\ inprog' = ip
            /\ UNCHANGED cache
       ELSE IF allow
-      THEN /\ last' = [allow |-> allow, ok |-> TRUE, resolved |-> TRUE, reads |-> ExtReads]
-           /\ cache' = [cache EXCEPT !["ext"] = "resolved"]
+      THEN /\ last' = [allow |-> allow, ok |-> TRUE, resolved |-> TRUE, reads |-> ExtReads(cache)]
+           /\ cache' = [cache EXCEPT !["ext"] = IF cache["ext"] = "none" THEN "resolved" ELSE cache["ext"]]
            /\ inprog' = {}
       ELSE /\ last' = [allow |-> allow, ok |-> FALSE, resolved |-> FALSE, reads |-> {}]
            /\ inprog' = IF Design = "pinned" THEN {"ref"} ELSE {}
            /\ UNCHANGED cache
 
-Next == Toggle \/ LoadFromFile \/ ResolveRefsIn
+Next == Toggle \/ LoadFromFile \/ LoadExtAsRoot \/ ResolveRefsIn
 Spec == Init /\ [][Next]_vars
 
 (* L1 *)
 UsedLikeFresh == (uses > 0 /\ last.allow) => (last.ok /\ last.resolved)
 ReadsOnlyRootWhenOff == (uses > 0 /\ ~last.allow) => last.reads \subseteq {"root"}
 ReadsOnlyRefDerived == last.reads \subseteq {"root", "ext"}
-NeverServedWhenOff == (uses > 0 /\ ~last.allow) => ~(last.ok /\ last.resolved)      \* (open by the statement; violated by both designs; not required)
+NeverServedWhenOff == (uses > 0 /\ ~last.allow) => ~(last.ok /\ last.resolved)      \* (open by the statement; violated by every design here; not required)
 =============================================================================
